@@ -61,6 +61,15 @@ def validation_refuses(cfg, sc):
         return True
 
 
+def _Mock():
+    from amaranth.lib import wiring
+
+    class Mock(wiring.Component):
+        def __init__(self):
+            super().__init__({})
+    return Mock()
+
+
 def build(cfg):
     """Replays the add() sequence on a real wishbone.Decoder.  Returns the decoder, the interfaces that
     were added and, per attempt, ("ok", [start, stop, ratio], map_aw) | ("rejected",) | ("unplaced",)."""
@@ -75,6 +84,12 @@ def build(cfg):
                                 features=feats(sc["feat"]), path=(f"s{i}",))
         sb.memory_map = MemoryMap(addr_width=max(1, sc["aw"] + lg(sc["dw"] // sc["g"])), data_width=sc["g"],
                                   alignment=sc.get("map_align", 0))
+        # what a subordinate's own map contains must not matter to the decoder: populate some of them
+        for k in range(i % 3):
+            try:
+                sb.memory_map.add_resource(_Mock(), name=(f"m{i}", k), size=1)
+            except ValueError:
+                pass
         try:
             if sc.get("align_to") is not None:
                 dec.align_to(sc["align_to"])
